@@ -261,7 +261,27 @@ func (w *World) deadErrEval(c ssa.Value) (bool, bool) {
 			case *ssa.Extract:
 				call, _ = y.Tuple.(*ssa.Call)
 			}
-			if call != nil && isErrorType(side.Type()) && (w.alwaysNilErr(call, map[*ssa.Function]bool{}) || (w.neverFails != nil && w.neverFails(call))) {
+			never := func(c *ssa.Call) bool {
+				return c != nil && (w.alwaysNilErr(c, map[*ssa.Function]bool{}) || (w.neverFails != nil && w.neverFails(c)))
+			}
+			// the errors of sibling calls merged (`if exec { err = a() } else { err = b() }`)
+			allNever := false
+			if ph, isPhi := v.(*ssa.Phi); isPhi && isErrorType(side.Type()) && len(ph.Edges) > 0 {
+				allNever = true
+				for _, e := range ph.Edges {
+					var c *ssa.Call
+					switch y := stripConv(e).(type) {
+					case *ssa.Call:
+						c = y
+					case *ssa.Extract:
+						c, _ = y.Tuple.(*ssa.Call)
+					}
+					if !never(c) {
+						allNever = false
+					}
+				}
+			}
+			if (call != nil && isErrorType(side.Type()) && never(call)) || allNever {
 				other := bo.Y
 				if side == bo.Y {
 					other = bo.X
@@ -454,6 +474,9 @@ func (w *World) analyseAtomic(fn *ssa.Function, onStack map[*ssa.Function]bool) 
 			// `return f(...)` where f never fails is a success exit
 			if idx := errResultIndex(fn); idx >= 0 && idx < len(p.Ret.Results) {
 				rv := stripConv(retResult(p.Ret, idx))
+				if p.RetErr != nil {
+					rv = stripConv(p.RetErr) // `v, err = a()` in one arm, `v, err = b()` in the other; `return err`
+				}
 				var call *ssa.Call
 				switch y := rv.(type) {
 				case *ssa.Call:
